@@ -2,6 +2,8 @@
 from ..runner import Prop
 from ..layouts import zoo, lay1
 from ..nd import prod, lane_positions
+from ..core import zlist, z
+from ..codec import f64_bits, f64_key
 from .c15 import mk_partition_case, parse_part, C15
 from .c02 import mk_select_case, mk_many_case, parse_sel, chk_term_sel, model_term_sel, LAYS
 from .c01 import mk_q_case, parse_q, C01
@@ -70,6 +72,25 @@ class C03(Prop):
             qvals[0], qvals[n - 1] = None, 1.25
             yield self._tag(mk_qsk_case("f64", rng.below(5), [2, n], qvals, 0.5, rng.choice(zoo([2, n], rng, 2)), 1, ("P", rng.below(3))), "qsk")
 
+        # element types whose order is coarser than identity: N64 lanes holding BOTH zeros (-0.0 == 0.0, different bits).
+        # Equal elements are not interchangeable: the lane must keep every bit pattern it held.
+        for _ in range(60 if tier == "quick" else 2500):
+            n = rng.range(2, 9)
+            pool = [0.0, -0.0, 0.0, -0.0, -1.0, 0.5, -2.5, 1.0]
+            data = [f64_bits(pool[rng.below(rng.choice([4, 5, 8]))]) for _ in range(n)]
+            if rng.chance(1, 2) and n >= 3:
+                # one zero in front, the other zero chosen as the pivot, something strictly smaller in between
+                data[0], data[-1], data[1] = f64_bits(0.0), f64_bits(-0.0), f64_bits(-1.0)
+            lay = rng.choice(LAYS)
+            p = (n - 1) if rng.chance(1, 2) else rng.below(n)
+            c = self._tag(mk_partition_case(data, p, *lay, et="n64"), "part")
+            c.half = True
+            yield c
+            mode = rng.choice([("P", 1), ("P", 0), ("S", [n - 1, 0, 0, 0]), ("S", [rng.below(n) for _ in range(6)])])
+            c = self._tag(mk_select_case(data, rng.below(n), lay, mode, et="n64"), "sel")
+            c.half = True
+            yield c
+
     def _tag(self, case, kind):
         case.kind = kind
         return case
@@ -116,6 +137,8 @@ class C03(Prop):
 
     def chk_term(self, case):
         k = case.kind
+        if getattr(case, "half", False):
+            return self._chk_half(case)
         if k == "part":
             return _c15.chk_term(case)
         if k == "sel":
@@ -126,7 +149,45 @@ class C03(Prop):
             return _c04.chk_term(case)
         return _c14.chk_term(case)
 
+    @staticmethod
+    def _enc2(bits):
+        """2 * (order-preserving key of the double) + (1 for -0.0): the model orders by the key only"""
+        return 2 * f64_key(bits) + (1 if bits == 0x8000000000000000 else 0)
+
+    def _chk_half(self, case):
+        e = self._enc2
+        off, n, st = case.lay
+        buf = zlist([e(b) for b in case.buf])
+        if case.kind == "part":
+            tag, k, post = case.obs
+            if tag == "OK":
+                o = "(OP_Ok %s %s)" % (z(k), zlist([e(b) for b in post]))
+            elif tag == "PANIC" and post is not None:
+                o = "(OP_Panic %s)" % zlist([e(b) for b in post])
+            else:
+                return "false"
+            return "chk_partition_half %s %s %s %s %s %s" % (buf, z(off), z(n), z(st), z(case.p), o)
+        tag, val, post, plog = case.obs
+        if post is None:
+            return "false"
+        script = zlist([c for (_, c) in plog])
+        if tag == "OK":
+            o = "(OS_Ok %s %s %d)" % (z(e(val)), zlist([e(b) for b in post]), len(plog))
+        elif tag == "PANIC":
+            o = "(OS_Panic %s)" % zlist([e(b) for b in post])
+        else:
+            return "false"
+        return "chk_select_half %s %s %s %s %s %s %s" % (buf, z(off), z(n), z(st), z(case.i), script, o)
+
     def model_term(self, case):
+        if getattr(case, "half", False):
+            e = self._enc2
+            off, n, st = case.lay
+            buf = zlist([e(b) for b in case.buf])
+            if case.kind == "part":
+                return "m_partition_half %s %s %s %s %s" % (buf, z(off), z(n), z(st), z(case.p))
+            script = zlist([c for (_, c) in (case.obs[3] if case.obs else [])])
+            return "m_select_half %s %s %s %s %s %s" % (buf, z(off), z(n), z(st), z(case.i), script)
         k = case.kind
         if k == "part":
             return _c15.model_term(case)
